@@ -131,7 +131,8 @@ def build(c):
         kwargs['middlewares'] = [make_mw(i, int(susp['mw0']) if i == 0 else 0) for i, _ in enumerate(cfg['middlewares'])]
     if cfg.get('handlers'):
         kwargs['error_handlers'] = {
-            (None if e['key'] is None else int(e['key'])): [make_handler(None if e['key'] is None else int(e['key']), i, int(susp['handler']))
+            (None if e['key'] is None else int(e['key'])): [make_handler(None if e['key'] is None else int(e['key']), i,
+                                                                           int(susp['handler']) if e['key'] is None else 0)
                                                               for i, _ in enumerate(e['hs'])]
             for e in cfg['handlers']}
     d = pjrpc.server.AsyncDispatcher(**kwargs)
@@ -288,7 +289,9 @@ def generate(tier, rng):
     thorough = tier == 'thorough'
     configs = []
     for nmw in (0, 1, 2):
-        for table in (None, [{'key': None, 'hs': [{'k': 'ident'}]}]):
+        for table in (None, [{'key': None, 'hs': [{'k': 'ident'}]}],
+                      [{'key': None, 'hs': [{'k': 'ident'}]}, {'key': '-32000', 'hs': [{'k': 'ident'}]}, {'key': '2001', 'hs': [{'k': 'ident'}, {'k': 'ident'}]},
+                       {'key': '-32601', 'hs': [{'k': 'ident'}]}]):
             configs.append(D.cfg(methods=methods(), middlewares=[{'k': 'pass'}] * nmw, handlers=table))
     susps = [
         {'body': [['echo', 1], ['slow', 2], ['vslow', 1], ['fail_rpc', 1], ['fail_exc', 1]], 'mw0': 0, 'handler': 0},
